@@ -850,7 +850,7 @@ def run(ctx):
         emit(case)
     # random part: blocks of BLOCK cases, one rng stream per block, so that the case set does not
     # depend on the number of workers and a worker only generates its own blocks
-    n = ctx.pick(30000, 1200000)
+    n = ctx.pick(30000, 4000000)
     for block in range(n // BLOCK):
         if not ctx.mine(block):
             continue
